@@ -47,6 +47,15 @@ def run_slice(vm, o, k):
     if not isinstance(k, slice):
         # single index: only supported inside the leading concrete/symbolic-byte prefix
         if is_sym(k):
+            # a symbolic position that provably coincides with the start of a byte atom (e.g. right after a run)
+            zk = zint(k)
+            off = 0
+            for x in o.a:
+                if not isinstance(x, Run) and vm.entails(zint_(off) == zk):
+                    return atom_val(x)
+                off = z3.simplify(zint_(off) + zint_(x.length if isinstance(x, Run) else 1))
+            if vm.entails(zk >= zint_(off)):
+                raise IndexError('index out of range')
             raise Unsupported('symbolic index into bytes with runs')
         if k >= 0:
             i = 0
@@ -682,6 +691,24 @@ def bm_find(vm, o, args, kw):
     else:
         sub = [atom_val(x) for x in atoms_of(sub)]
     a = [atom_val(x) for x in atoms_of(o)]
+    if any(isinstance(x, Run) for x in a) and len(sub) == 1 and isinstance(sub[0], int):
+        # one concrete byte searched in bytes with runs anywhere: runs are skipped when their declared fill excludes the byte
+        start = args[1] if len(args) > 1 and args[1] is not None else 0
+        stop = args[2] if len(args) > 2 else None
+        region = o if (not is_sym(start) and start == 0 and stop is None) else run_slice(vm, o, slice(start, stop))
+        off = 0
+        for x in atoms_of(region):
+            x = atom_val(x)
+            if isinstance(x, Run):
+                fill = vm.run_fill.get(x.rid)
+                if not fill or sub[0] in fill:
+                    raise Unsupported('find in an opaque run whose content is not known to exclude the pattern')
+                off = z3.simplify(zint_(off) + zint_(x.length))
+            else:
+                if vm.truth(vm.eq(x, sub[0])):
+                    return mk_int(z3.simplify(zint_(zint(start)) + zint_(off)))
+                off = z3.simplify(zint_(off) + 1)
+        return -1
     if any(isinstance(x, Run) for x in a):
         # supported shape: concrete/symbolic bytes followed by trailing runs whose declared fill cannot contain `sub`
         k = 0
